@@ -101,7 +101,7 @@ func genFlows(g *Rng, tier string) *Plan {
 			steps = append(steps, st)
 			nflows++
 		case c == 1 || nresps == 0:
-			as := flowStep{Kind: "answer", Flow: g.Intn(nflows), User: g.Intn(4), Unsolicited: fault && g.Bool(0.2), Forged: fault && g.Bool(0.15)}
+			as := flowStep{Kind: "answer", Flow: g.Intn(nflows), User: Pick(g, g.Intn(4), g.Intn(4), g.Intn(19)), Unsolicited: fault && g.Bool(0.2), Forged: fault && g.Bool(0.15)}
 			if as.Forged && nflows > 1 && g.Bool(0.5) {
 				as.ForgedFrom = 1 + g.Intn(nflows)
 			}
@@ -279,6 +279,12 @@ func execFlows(t *testing.T, p *Plan) *Result {
 			if !tc.HttpOnly || (d.conf.HTTPS && !tc.Secure) {
 				res.violate(si, "tracking-cookie-flags", "C17/tracking-cookie-flags", "HttpOnly (and Secure on https)", fmt.Sprintf("httponly=%v secure=%v", tc.HttpOnly, tc.Secure), "")
 				return res
+			}
+			for fi, fl := range flows {
+				if fl.reqID == ar.ID {
+					res.violate(si, "request-id-reused", "C17/flow-start/request-id-reused", "every login flow is tracked under a request ID of its own", "the request ID of flow "+fmt.Sprint(fi)+" again", "a response to either flow then completes in the browser that holds the other's cookie")
+					return res
+				}
 			}
 			b.store(u.Host, rep.Cookies)
 			flows = append(flows, &flowRec{b: st.B, sp: st.SP, url: u.RequestURI(), reqID: ar.ID, index: ar.RelayState, cookieName: tc.Name, cookieVal: tc.Value, start: time.Now()})
@@ -485,6 +491,12 @@ func execFlows(t *testing.T, p *Plan) *Result {
 			}
 			r.count++
 			if rep.Panic != nil {
+				if mustAccept {
+					// a faithful flow (authentic fresh cookie, echoed RelayState, fresh genuine response) ends in a panic instead of a session
+					res.logf("step %d deliver resp %d: PANIC on a faithful flow", si, st.Resp)
+					res.violate(si, "faithful-flow-refused", "C17/faithful-flow-refused/panic", "SESSION->"+f.url, "panic in the assertion consumer", short(fmt.Sprint(rep.Panic), 200))
+					return res
+				}
 				res.Excluded = "panic (reported under C09)"
 				return res
 			}
